@@ -19,10 +19,16 @@ RULE = ("exhaustive: every DAG on <=4 labelled nodes x every labelling up to ren
         "(2595 cases, both tiers); 4-node digraphs with self loops sampled (thorough: in addition every loop-free 4-node digraph x every "
         "labelling, 61440 cases); random graphs up to 12 nodes with planted self loops / 2-cycles / 3-cycles / closed tracklets / isolated "
         "rings / back edges through divisions, labellings = linking components perturbed; verdict, named ids AND the kind of every message "
-        "(with the node it names) compared with the model in Coq")
+        "(with the node it names) compared with the model in Coq; "
+        "TRACKLET IDS FLAGGED MISSING (validate_data with a real missing mask; the flagged node stays in the graph unlabelled): exhaustive: every DAG on <=3 "
+        "nodes x every labelling x every non-empty mask (894 cases); 4-node DAGs x labellings x one or two flagged nodes sampled; larger graphs with "
+        "planted cycles, one to three flagged nodes, nodes inside a path preferred; validator on the filtered node list (Coq: the same filtered list), "
+        "validate_data and read_to_memory with the mask stored must agree with it")
 EXHAUSTIVE_BLOCKS = ["all DAGs on <=4 nodes x all labellings up to renaming",
                      "all digraphs (self loops and 2-cycles included) on <=3 nodes x all labellings up to renaming",
-                     "thorough tier: all loop-free digraphs on 4 nodes x all labellings up to renaming"]
+                     "thorough tier: all loop-free digraphs on 4 nodes x all labellings up to renaming",
+                     "all DAGs on <=3 nodes x all labellings up to renaming x all non-empty missing masks (through validate_data)"]
+PARALLEL = True
 ASSUMPTIONS = ["networkx DiGraph / subgraph / degree / is_weakly_connected are modelled by their mathematical meaning; "
                "is_directed_acyclic_graph (topological_generations, Kahn by generations) is modelled as a peeling of the node set, its "
                "per-node counters by their meaning",
@@ -144,6 +150,54 @@ def _generate(rng: random.Random, tier: str):
         via = "data" if rng.random() < 0.25 else "direct"
         yield {"kind": "tracklets", "nodes": nodes, "edges": es, "labels": [LABEL_IDS[l % len(LABEL_IDS)] for l in labels], "via": via}
     yield from _generate_cyclic(rng, tier)
+    yield from _generate_masked(rng, tier)
+
+
+def _generate_masked(rng: random.Random, tier: str):
+    """Tracklet ids flagged missing ("mask": one flag per node).  validate_data hands validate_tracklets the nodes that are NOT flagged
+    (_annotated_nodes) and ALL the edges, so a flagged node stays in the graph without a label; the label stored at its position is a fill
+    value (here: the label of another class or a fresh one, as the labelling enumerates).  The Coq input is the FILTERED node list with all
+    the edges -- ITrackletsDag / ITrackletsAll can express it (edges may mention ids outside the node list), no new input constructor.
+    Expected verdict: the documented partition of the FULL graph, with the flagged nodes unlabelled."""
+    import itertools
+
+    # exhaustive: every DAG on <=3 nodes x every labelling up to renaming x every non-empty mask
+    for n in range(1, 4):
+        for edges in all_dags(n):
+            for labels in set_partitions(n):
+                for mask in itertools.product([False, True], repeat=n):
+                    if any(mask):
+                        yield dict(mk_case("tracklets", n, edges, labels), mask=list(mask), via="data")
+    # 4 nodes: DAGs x labellings x one or two flagged nodes, sampled
+    dags4 = list(all_dags(4))
+    parts4 = list(set_partitions(4))
+    for _ in range(1200 if tier == "quick" else 15000):
+        mask = [False] * 4
+        for i in rng.sample(range(4), rng.choice([1, 1, 2])):
+            mask[i] = True
+        yield dict(mk_case("tracklets", 4, rng.choice(dags4), rng.choice(parts4)), mask=mask, via="data" if rng.random() < 0.3 else "direct")
+    # larger graphs (cycles planted): the documented partition perturbed, one to three flagged nodes (nodes inside a path preferred)
+    for _ in range(800 if tier == "quick" else 8000):
+        n = rng.choice([4, 5, 6, 8, 10])
+        edges, what = planted_cyclic(rng, n)
+        if rng.random() < 0.5:
+            edges = [e for e in edges if e[0] < e[1]] or edges            # mostly acyclic
+        nodes = NODE_IDS[:n]
+        es = [[nodes[a], nodes[b]] for a, b in edges]
+        part = linking_components(nodes, es)
+        labels = perturb(rng, nodes, sorted(part, key=lambda c: min(c)))
+        inner = [i for i, x in enumerate(nodes) if any(e[0] == x for e in es) and any(e[1] == x for e in es)]
+        mask = [False] * n
+        for _k in range(rng.choice([1, 1, 2, 3])):
+            mask[rng.choice(inner) if inner and rng.random() < 0.6 else rng.randrange(n)] = True
+        yield {"kind": "tracklets_all", "nodes": nodes, "edges": es, "labels": [LABEL_IDS[l % len(LABEL_IDS)] for l in labels],
+               "via": "data" if rng.random() < 0.4 else "direct", "planted": what, "mask": mask}
+
+
+def annotated(c):
+    """(nodes, labels) restricted to the nodes whose tracklet id is not flagged missing"""
+    mask = c.get("mask") or [False] * len(c["nodes"])
+    return ([x for x, m in zip(c["nodes"], mask) if not m], [l for l, m in zip(c["labels"], mask) if not m])
 
 
 def _generate_cyclic(rng: random.Random, tier: str):
@@ -185,8 +239,14 @@ def run_impl(c):
     nodes = np.array(c["nodes"], dtype="uint64")
     edges = np.array(c["edges"], dtype="uint64").reshape(-1, 2)
     labels = np.array(c["labels"], dtype="int64")
+    missing = None
+    a_nodes, a_labels = nodes, labels
+    if c.get("mask") is not None:
+        # the validator is given what validate_data must hand over: the nodes not flagged missing, and all the edges
+        missing = np.array(c["mask"], dtype=bool)
+        a_nodes, a_labels = np.array(annotated(c)[0], dtype="uint64"), np.array(annotated(c)[1], dtype="int64")
     try:
-        valid, errors = validate_tracklets(nodes, edges, labels)
+        valid, errors = validate_tracklets(a_nodes, edges, a_labels)
     except Exception as e:
         return {"exc": type(e).__name__}
     out = {"valid": bool(valid), "named": named_ids(errors, "Tracklet"), "msgs": parsed_msgs(errors)}
@@ -195,7 +255,7 @@ def run_impl(c):
         from geff_spec import GeffMetadata
 
         md = GeffMetadata(directed=True, node_props_metadata={}, edge_props_metadata={}, track_node_props={"tracklet": "trk"})
-        g = {"metadata": md, "node_ids": nodes, "edge_ids": edges, "node_props": {"trk": {"values": labels, "missing": None}}, "edge_props": {}}
+        g = {"metadata": md, "node_ids": nodes, "edge_ids": edges, "node_props": {"trk": {"values": labels, "missing": missing}}, "edge_props": {}}
         try:
             validate_data(g, ValidationConfig(tracklet=True))
             out["data"] = "ok"
@@ -218,7 +278,7 @@ def run_impl(c):
             for x in cc:
                 comp[x] = k
         md2 = GeffMetadata(directed=True, node_props_metadata={}, edge_props_metadata={}, track_node_props={"tracklet": "trk", "lineage": "lin"})
-        g2 = dict(g, metadata=md2, node_props={"trk": {"values": labels, "missing": None},
+        g2 = dict(g, metadata=md2, node_props={"trk": {"values": labels, "missing": missing},
                                                "lin": {"values": np.array([comp[x] for x in c["nodes"]], dtype="int64"), "missing": None}})
         try:
             validate_data(g2, ValidationConfig(tracklet=True, lineage=True))
@@ -231,10 +291,10 @@ def run_impl(c):
 def coq_case(c, o):
     if "exc" in o:
         # the model never raises (C13_never_raises): an exception of the implementation is a correspondence mismatch
-        return f"(ITrackletsAll {cpairs(c['edges'])} {cpairs(list(zip(c['nodes'], c['labels'])))}, ORaises)"
+        return f"(ITrackletsAll {cpairs(c['edges'])} {cpairs(list(zip(*annotated(c))))}, ORaises)"
     if None in o["named"]:
         return None
-    nl = cpairs(list(zip(c["nodes"], c["labels"])))
+    nl = cpairs(list(zip(*annotated(c))))        # with a mask: the nodes not flagged missing (all the edges stay)
     if any(m[1] is None for m in o["msgs"]):
         # a message the model does not know: the observation cannot be the model's
         return f"(ITrackletsAll {cpairs(c['edges'])} {nl}, OInvalid {clist(o['named'], cz)})"
@@ -248,7 +308,7 @@ def oracle(c, o):
     if "exc" in o:
         return Failure(c, o, f"validate_tracklets raised {o['exc']}", {"why": "raises"})
     ref = reference_partition(c["nodes"], c["edges"])
-    cl = classes(c["nodes"], c["labels"])
+    cl = classes(*annotated(c))                  # the reference above is computed on the full graph: flagged nodes stay, unlabelled
     bad = [t for t, ns in cl.items() if frozenset(ns) not in ref]
     bad2 = [t for t, ns in cl.items() if not is_maximal_unbranched_path(ns, c["nodes"], c["edges"])]
     if bad != bad2:
@@ -308,7 +368,11 @@ def describe(c, o):
             _count(f"planted_{k}")
         if c.get("via") == "data":
             _count("through_validate_data_and_read_to_memory")
-    base = f"n={len(c['nodes'])}:e={len(c['edges'])}:classes={len(set(c['labels']))}:{'valid' if o.get('valid') else 'invalid'}"
+    if c.get("mask") is not None:
+        _count("masked_inputs")
+        _count("masked_accepted" if o.get("valid") else "masked_rejected")
+    base = (f"n={len(c['nodes'])}:e={len(c['edges'])}:classes={len(set(c['labels']))}:{'valid' if o.get('valid') else 'invalid'}"
+            + (":masked" if c.get("mask") is not None else ""))
     if c["kind"] == "tracklets_all":
         cyc = has_directed_cycle(c["nodes"], [tuple(e) for e in c["edges"]])
         kinds = sorted({m[1] or "?" for m in o.get("msgs", [])})
